@@ -631,6 +631,18 @@ def scenarios():
                         {'op': 'mutate_meta', 't': 0, 'path': path,
                          'key': key, 'value': value}] + OBSERVE)
 
+    # root options taken away one by one (or all), then serialised, then
+    # another default tree made and serialised
+    for keys in (['encoding', 'version'], ['version', 'encoding'],
+                 ['encoding'], ['version']):
+        out.append([{'op': 'new_default'}] +
+                   [{'op': 'mutate_options', 't': 0, 'path': [-1, -1],
+                     'which': 'self', 'key': k, 'value': '$del'}
+                    for k in keys] + OBSERVE +
+                   [{'op': 'new_default'}, {'op': 'to_bytes', 't': 1},
+                    {'op': 'eq', 't': 1, 'u': 0}, {'op': 'to_bytes', 't': 0},
+                    {'op': 'new_default'}, {'op': 'to_bytes', 't': 2}])
+
     # built, serialised, extended, serialised again
     for tree in ({'main': {}, 'changes': [], 'via_constructor': True},
                  {'main': {'meta': {'k': 1}},
